@@ -13,7 +13,7 @@ RULE = ('for each (message class of all 23, data set absent / 1, F, F+1, 2F+1 by
         '(n fragments) is regrouped into P-DATA-TF PDUs in EVERY composition (2^(n-1)) for n<=12, and for longer lists in '
         'every composition within 3 splits of all-in-one or 3 merges of one-per-PDU; each composition goes through '
         'PDataTfPDU.encode/decode and a fresh DIMSEDecoder, and additionally through StateMachine.dt_2 / ar_6 on a stub '
-        'provider; file-backed reception (AEBase.get_file temp file and the directory-backed _get_storage_file) x 3 '
+        'provider, also with the local release request (AR-1) falling between two PDUs of the message; file-backed reception (AEBase.get_file temp file and the directory-backed _get_storage_file) x 3 '
         'transfer syntaxes for C-STORE-RQ. distinct/non-trivial = distinct (class, n, composition, reception mode)')
 ASSUMPTIONS = ['fragments of one message arrive in protocol order (ill-ordered PDV streams belong to C12)',
                'file-backed reception is exercised for C-STORE-RQ (the only request with a data set and Affected SOP UIDs)']
@@ -103,6 +103,14 @@ class _Q(object):
         self.items.append(x)
 
 
+class _Sock(object):
+    def sendall(self, data):
+        pass
+
+    def close(self):
+        pass
+
+
 class _Prov(object):
     def __init__(self):
         self.primitive = None
@@ -188,7 +196,9 @@ def run_case(case):
             if tmpdir and mode == 'directory':
                 for f in os.listdir(tmpdir):
                     os.unlink(os.path.join(tmpdir, f))
-            for via in ('decoder', 'dt_2', 'ar_6') if (ncomp <= 64 or mode != 'memory') else ('decoder',):
+            for via in ('decoder', 'dt_2', 'ar_6', 'release-between') if (ncomp <= 64 or mode != 'memory') else ('decoder',):
+                if via == 'release-between' and len(groups) < 2:
+                    continue
                 if via != 'decoder' and mode != 'memory' and ncomp > 8:
                     continue
                 dec = None
@@ -200,7 +210,8 @@ def run_case(case):
                     prov = _Prov()
                     sm = fsm.StateMachine(prov, None, store_in_file, get_file)
                     sm.accepted_contexts = contexts
-                    sm.current_state = fsm.States.STA_6 if via == 'dt_2' else fsm.States.STA_7
+                    sm.current_state = fsm.States.STA_7 if via == 'ar_6' else fsm.States.STA_6
+                    prov.dul_socket = _Sock()
                 done_at = None
                 result = None
                 try:
@@ -225,8 +236,16 @@ def run_case(case):
                             if not dec.receiving:
                                 result = (dec.msg, dec.pc_id)
                         else:
+                            meth = via
+                            if via == 'release-between':
+                                # the local user requests release after PDU (ncomp mod groups) of the first message: AR-1, then
+                                # the rest of the message (and the second message) arrives in Sta7
+                                if not second and gi == 1 + (ncomp % (len(groups) - 1)):
+                                    prov.primitive = None
+                                    sm.current_state = sm.ar_1()
+                                meth = 'dt_2' if sm.current_state == fsm.States.STA_6 else 'ar_6'
                             prov.primitive = pdu_in
-                            nxt = getattr(sm, via)()
+                            nxt = getattr(sm, meth)()
                             if nxt != sm.current_state:
                                 viol.append((sig + ':state', '%s returned state %r (%s)' % (via, nxt, where)))
                             got = len(prov.to_service_user.items)
